@@ -132,6 +132,20 @@ def _perturb(rec):
                  exceptions.AMQPError, exceptions.PAMQPException):
         made.append(type('Client' + base.__name__, (base,),
                          {'value': 403, 'name': 'LOGIN-REFUSED'}))
+    # ordinary codec use: protocol headers of many versions offered by peers,
+    # heartbeats, frames decoded and refused
+    from pamqp import frame, header
+    for tri in [(0, 9, 0), (0, 8, 0), (0, 0, 9), (0, 10, 0), (1, 0, 0),
+                (0, 9, 1), (0, 0, 0), (255, 255, 255), (1, 1, 8)] + \
+            [(a, b, c) for a in (0, 1) for b in range(0, 12)
+             for c in (0, 1, 2)]:
+        common.lib_unmarshal(b'AMQP\x00' + bytes(tri))
+        common.lib_unmarshal(b'AMQP' + bytes((tri[0], tri[0], tri[1],
+                                              tri[2])))
+        common.lib_marshal(header.ProtocolHeader(*tri), 0)
+    common.lib_unmarshal(b'\x08\x00\x00\x00\x00\x00\x00\xce')
+    common.lib_unmarshal(b'\x01\x00\x01\x00\x00\x00\x04\x00\x0a\x00\x33\xce')
+    common.lib_unmarshal(b'AMQP')
     list(exceptions.CLASS_MAPPING.items())
     dict(vars(constants))
     rec.count('client_subclasses_defined', len(made))
